@@ -4,6 +4,7 @@ package main
 
 import (
 	"math/big"
+	"time"
 
 	"go.dedis.ch/kyber/v4"
 
@@ -194,8 +195,21 @@ func validEncodings(r *vh.Rng, in grpprog.Inst, n int) [][]byte {
 	// (a residue group picks by rejection: hopeless for a large cofactor, by design)
 	if rp, ok := resParams[in.Name]; !ok || rp.R.BitLen() <= 6 {
 		st := vh.NewSeqStream(r.Bytes(16))
-		vh.Try(func() { add(g.Point().Pick(st)) })
-		vh.Try(func() { add(g.Point().Embed([]byte{1, 2, 3}, st)) })
+		var picked []kyber.Point
+		var p1, p2 kyber.Point
+		_, _, late1 := tryFor(10*time.Second, func() { p1 = g.Point().Pick(st) })
+		if !late1 && p1 != nil {
+			picked = append(picked, p1)
+		}
+		if !late1 { // the stream is shared: do not start a second draw while the first still spins
+			_, _, late2 := tryFor(10*time.Second, func() { p2 = g.Point().Embed([]byte{1, 2, 3}, st) })
+			if !late2 && p2 != nil {
+				picked = append(picked, p2)
+			}
+		}
+		for _, p := range picked {
+			vh.Try(func() { add(p) })
+		}
 	}
 	return out
 }
